@@ -348,9 +348,9 @@ func (s *Session) Terminate() error {
 // resume the loop may not be ready yet ("not currently able to
 // synchronize"), so that refusal is retried for a short while.
 func (s *Session) Flush() error {
-	deadline := time.Now().Add(5 * time.Second)
+	deadline := time.Now().Add(60 * time.Second)
 	for {
-		ctx, cancel := context.WithTimeout(context.Background(), 20*time.Second)
+		ctx, cancel := context.WithTimeout(context.Background(), 120*time.Second)
 		err := s.Env.Manager.Flush(ctx, sel(s.ID), "", false)
 		cancel()
 		if err != nil && strings.Contains(err.Error(), "not currently able to synchronize") && time.Now().Before(deadline) {
